@@ -51,7 +51,9 @@ def seqStep (s : State) (line : String) : State × String :=
   | "BGET" :: r :: a :: rest => out (Upd.step s (.bGet r a false (kv rest "range")))
   | "BHEAD" :: r :: a :: rest => out (Upd.step s (.bGet r a true (kv rest "range")))
   | ["BDEL", r, a] => out (Upd.step s (.bDel r a))
-  | "DEF" :: name :: kind :: rest => ({ s with defs := s.defs ++ [(name, mkBody kind rest)] }, "def")
+  | "DEF" :: name :: kind :: rest =>
+    -- definitions are global and a name is defined once (the harness ignores a redefinition)
+    if s.defs.any (·.1 = name) then (s, "def") else ({ s with defs := s.defs ++ [(name, mkBody kind rest)] }, "def")
   | "MPUT" :: r :: ref :: rest => out (Upd.step s (.mPut r ref (kv rest "ct") (kv rest "qd") (kv rest "body") (kv rest "len" ≠ "unknown")))
   | "MGET" :: r :: ref :: rest => out (Upd.step s (.mGet r ref (csv (kv rest "accept")) false (kv rest "range")))
   | "MHEAD" :: r :: ref :: rest => out (Upd.step s (.mGet r ref (csv (kv rest "accept")) true (kv rest "range")))
